@@ -162,7 +162,9 @@ def _not(x):
 
 
 PCOLS = [("a", "INT"), ("b", "INT"), ("s", "VARCHAR"), ("t", "VARCHAR"), ("c", "BOOLEAN")]
-PATTERNS = ["%", "%%", "", "a%", "%a", "_", "a_", "%b%", "ab", "_%"]
+PATTERNS = ["%", "%%", "", "a%", "%a", "_", "a_", "%b%", "ab", "_%",
+            # characters that mean something to a regular-expression engine stand for themselves in LIKE
+            "a.c", ".", "a.%", "(", "a*", "[ab]", "a|b", "^a", "a$", "_._", "a+", "a?", "{1}", "%)"]
 
 
 def gen_bexpr(rng, d=0):
@@ -235,7 +237,7 @@ def pred_case(args):
         nrows = rng.choice([5, 40, 70, 130])
         for i in range(nrows):
             rows.append(dict(id=i, a=rng.choice([None, 0, 1, 2, 3]), b=rng.choice([None, 0, 1, 2]),
-                             s=rng.choice([None, None, "", "a", "ab", "b", "ba"]), t=rng.choice([None, "", "a", "ab"]),
+                             s=rng.choice([None, None, "", "a", "ab", "b", "ba", "a.c", "abc", "(", "a*", "aa", "a|b", "^a", "a$", "{1}", "a\nc"]), t=rng.choice([None, "", "a", "ab", ".", "a)"]),
                              c=rng.choice([None, True, False])))
         for i in range(0, nrows, 50):
             vals = ", ".join("(" + ", ".join("NULL" if r[k] is None else (f"'{r[k]}'" if isinstance(r[k], str) else str(r[k]).lower())
@@ -295,11 +297,11 @@ def pred_case(args):
 # table fails exactly when it fails for some row alone. No reference semantics: two executions of the
 # real evaluator are compared.
 
-XCOLS = dict(int=["a", "b"], big=["g"], small=["h"], dbl=["f"], dec=["d"], str=["s", "t"], bool=["c"], date=["dt"])
+XCOLS = dict(int=["a", "b"], big=["g"], small=["h"], dbl=["f", "f2"], dec=["d"], str=["s", "t"], bool=["c"], date=["dt"])
 
 
-def gen_x(rng, ty, d=0):
-    leaf = d >= 3 or rng.random() < 0.3
+def gen_x(rng, ty, d=0, force=None):
+    leaf = (d >= 3 or rng.random() < 0.3) and not force
     if ty == "int":
         if leaf:
             return rng.choice(XCOLS["int"] + [str(rng.choice([0, 1, -1, 2, 7, 2147483647, 100000]))])
@@ -326,7 +328,7 @@ def gen_x(rng, ty, d=0):
         return f"({gen_x(rng, 'big', d + 1)} {rng.choice(['+', '-', '*'])} {gen_x(rng, rng.choice(['big', 'int']), d + 1)})"
     if ty == "dbl":
         if leaf:
-            return rng.choice(["f", "1.5", "CAST(a AS DOUBLE)", "0.0"])
+            return rng.choice(["f", "f2", "f", "f2", "1.5", "CAST(a AS DOUBLE)", "0.0"])
         return f"({gen_x(rng, 'dbl', d + 1)} {rng.choice(['+', '-', '*', '/'])} {gen_x(rng, 'dbl', d + 1)})"
     if ty == "dec":
         if leaf:
@@ -335,7 +337,9 @@ def gen_x(rng, ty, d=0):
     if ty == "str":
         if leaf:
             return rng.choice(XCOLS["str"] + ["'a'", "''", "'10'", "'abc'"])
-        k = rng.choice(["concat", "substr", "replace", "repeat", "cast"])
+        k = rng.choice(["concat", "substr", "replace", "repeat", "cast", "cases"])
+        if k == "cases":
+            return f"(CASE WHEN {gen_x(rng, 'bool', d + 1)} THEN {gen_x(rng, 'str', d + 1)} ELSE {gen_x(rng, 'str', d + 1)} END)"
         if k == "concat":
             return f"({gen_x(rng, 'str', d + 1)} || {gen_x(rng, 'str', d + 1)})"
         if k == "substr":
@@ -348,7 +352,15 @@ def gen_x(rng, ty, d=0):
     if ty == "bool":
         if leaf:
             return rng.choice(["c", "true", "false", "(a IS NULL)", "(s IS NOT NULL)"])
-        k = rng.choice(["cmp", "cmp", "scmp", "like", "in", "between", "and", "or", "not", "dcmp"])
+        k = force or rng.choice(["cmp", "cmp", "scmp", "like", "in", "between", "and", "or", "not", "dcmp", "castb", "caseb", "tcmp"])
+        if k == "castb":   # the raw result of the computation lies under a NULL slot
+            return f"CAST({gen_x(rng, rng.choice(['int', 'dbl', 'dec', 'big']), d + 1)} AS BOOLEAN)"
+        if k == "caseb":
+            return f"(CASE WHEN {gen_x(rng, 'bool', d + 1)} THEN {gen_x(rng, 'bool', d + 1)} ELSE {gen_x(rng, 'bool', d + 1)} END)"
+        if k == "tcmp":
+            op = rng.choice(['=', '<>', '<', '<=', '>', '>='])
+            return rng.choice([f"(ts {op} TIMESTAMP '{rng.choice(['2000-01-01 00:00:00', '2024-02-29 12:30:00'])}')", f"(ts {op} ts)",
+                               f"(iv {op} INTERVAL '{rng.choice(['1', '2', '30'])}' {rng.choice(['DAY', 'MONTH'])})", f"(iv {op} iv)"])
         if k == "cmp":
             t = rng.choice(["int", "int", "big", "dbl", "dec"])
             return f"({gen_x(rng, t, d + 1)} {rng.choice(['=', '<>', '<', '<=', '>', '>='])} {gen_x(rng, t, d + 1)})"
@@ -370,13 +382,24 @@ def gen_x(rng, ty, d=0):
     raise ValueError(ty)
 
 
+# directed probes of the filter position: a boolean that is the direct output of a kernel over two columns whose NULLs fall on
+# different rows (the raw result of the computation then lies under the NULL slot of the result)
+_PAIRS = dict(dbl=("f", "f2"), int=("a", "b"), big=("g", "CAST(a AS BIGINT)"), dec=("d", "CAST(b AS DECIMAL(10,2))"), small=("h", "CAST(b AS SMALLINT)"))
+FILTER_PROBES = ([f"CAST(({x} {op} {y}) AS BOOLEAN)" for (x, y) in _PAIRS.values() for op in ("+", "-", "*", "/")]
+                 + [f"CAST(({y} {op} {x}) AS BOOLEAN)" for (x, y) in _PAIRS.values() for op in ("-", "/", "%")]
+                 + [f"CAST((- {x}) AS BOOLEAN)" for (x, _) in _PAIRS.values()]
+                 + ["CAST(CAST(f AS INT) AS BOOLEAN)", "CAST((s || t) AS BOOLEAN)", "(CASE WHEN c THEN (a = b) ELSE c END)",
+                    "(CASE WHEN (a > b) THEN c ELSE (f < f2) END)", "((s || t) LIKE 'a%')", "((a + b) IN (1, 2))", "((f + f2) BETWEEN 1 AND 7)",
+                    "((f * f2) > 1.0)", "((d + d) >= 1)", "(SUBSTRING(s FROM a FOR b) = 'a')", "(EXTRACT(YEAR FROM dt) = 2000)", "(ts < ts)", "(iv = iv)"])
+
+
 def _xlit(v):
     if v is None:
         return "NULL"
     if isinstance(v, bool):
         return "true" if v else "false"
     if isinstance(v, str):
-        return v if v.startswith("DATE ") else "'" + v + "'"
+        return v if v.startswith(("DATE ", "TIMESTAMP ", "INTERVAL ")) else "'" + v + "'"
     return str(v)
 
 
@@ -387,7 +410,7 @@ def rowiso_case(args):
     engine = "mem" if idx % 2 == 0 else "disk"
     rl = RL(engine, dict(block=64, rowset=400, crc=True, first_key=True))
     try:
-        r = rl.sql("CREATE TABLE p(id INT NOT NULL, a INT, b INT, g BIGINT, h SMALLINT, f DOUBLE, d DECIMAL(10,2), s VARCHAR, t VARCHAR, c BOOLEAN, dt DATE)")
+        r = rl.sql("CREATE TABLE p(id INT NOT NULL, a INT, b INT, g BIGINT, h SMALLINT, f DOUBLE, d DECIMAL(10,2), s VARCHAR, t VARCHAR, c BOOLEAN, dt DATE, ts TIMESTAMP, iv INTERVAL, f2 DOUBLE)")
         if not r["ok"]:
             res["inconclusive"] = "create failed"
             return res
@@ -398,16 +421,27 @@ def rowiso_case(args):
                          rng.choice([None, 0, 1, 4294967296, 9223372036854775807]), rng.choice([None, 0, 1, 32767, -32768]),
                          rng.choice([None, 0.0, 1.5, -2.25, 123456789012345.5]), rng.choice([None, "0", "1.50", "-2.25", "99999999.99"]),
                          rng.choice([None, None, "", "a", "ab", "10", "abc"]), rng.choice([None, "", "a", "7"]),
-                         rng.choice([None, True, False]), rng.choice([None, "DATE '2000-01-01'", "DATE '2024-02-29'", "DATE '1999-12-31'"])])
+                         rng.choice([None, True, False]), rng.choice([None, "DATE '2000-01-01'", "DATE '2024-02-29'", "DATE '1999-12-31'"]),
+                         # (as strings: two TIMESTAMP literals in one VALUES list have no common type for the binder)
+                         rng.choice([None, "2000-01-01 00:00:00", "2024-02-29 12:30:00", "1999-12-31 23:59:59"]),
+                         rng.choice([None, "INTERVAL '1' DAY", "INTERVAL '2' MONTH", "INTERVAL '30' DAY", "INTERVAL '1' MONTH"]),
+                         rng.choice([None, None, 0.0, 5.0, -1.5])])   # f2: NULLs of f and f2 fall on different rows
         for i in range(0, nrows, 40):
             vals = ", ".join("(" + ", ".join(_xlit(v) if j != 6 or v is None else v for j, v in enumerate(row)) + ")" for row in rows[i:i + 40])
             r = rl.sql(f"INSERT INTO p VALUES {vals}")
             if not r["ok"]:
                 res["inconclusive"] = "insert failed: " + r.get("err", "")[:80]
                 return res
-        for _ in range(n):
-            ty = rng.choice(["int", "int", "str", "bool", "bool", "dbl", "dec", "big"])
-            e = gen_x(rng, ty)
+        todo = list(FILTER_PROBES) if idx < 4 else []   # two memory and two disk workers run the directed probes first
+        for it in range(n + len(todo)):
+            if it < len(todo):
+                ty, e = "bool", todo[it]
+            else:
+                ty, e = rng.choice(["int", "int", "str", "bool", "bool", "dbl", "dec", "big"]), None
+            # a third of the boolean expressions end in a kernel that does not pass through AND / OR / NOT (those clear the raw
+            # value under a NULL themselves): what a filter reads is then that kernel's own output
+            if e is None:
+                e = gen_x(rng, ty, force=rng.choice(["castb", "castb", "caseb", "like", "in", "between", "tcmp", "cmp", "scmp"]) if ty == "bool" and rng.random() < 0.35 else None)
             whole = rl.sql(f"SELECT id, {e} AS v FROM p")
             res["evals"] += 1
             if whole.get("dead"):
@@ -433,6 +467,32 @@ def rowiso_case(args):
             res["distinct"].append(h(e))
             if len(res["samples"]) < 2:
                 res["samples"].append(e[:160])
+            if not whole["ok"] and "no function" in (whole.get("err") or "") and "Null" not in (whole.get("err") or ""):
+                # the binder (type checker) accepted the operand types; the evaluator has no kernel for them
+                m = _re.search(r"no function (\w+\([^)]*\))", whole.get("err") or "")
+                res["violations"].append(dict(signature="rowiso:accepted-expression-has-no-kernel:" + (m.group(1).replace(" ", "") if m else "?"), sql=e,
+                                              what=f"SELECT {e}: accepted by the binder, fails at run time: {whole.get('err', '')[:100]}"))
+                continue
+            if whole["ok"] and ty == "bool" and not alone_err:
+                # the same expression as a filter: WHERE e keeps exactly the rows whose value is TRUE, WHERE NOT e those whose value
+                # is FALSE (a NULL row is in neither), whatever raw bits the kernels left under the NULL
+                val = {row[0]: row[1] for row in whole["rows"]}
+                for cond, truth in ((e, 1), (f"NOT {e}", 0)):
+                    fr = rl.sql(f"SELECT id FROM p WHERE {cond}")
+                    res["evals"] += 1
+                    if not fr["ok"]:
+                        res["violations"].append(dict(signature="rowiso:fails-as-filter", sql=e,
+                                                      what=f"SELECT id FROM p WHERE {cond}: {fr.get('err', '')[:100]} {fr.get('panics')}; as a select item it evaluates"))
+                        break
+                    ids_f = sorted(row[0] for row in fr["rows"])
+                    exp = sorted(k for k, v in val.items() if v is not None and int(v) == truth)
+                    if ids_f != exp:
+                        extra = [k for k in ids_f if k not in exp][:3]
+                        lost = [k for k in exp if k not in ids_f][:3]
+                        res["violations"].append(dict(signature="rowiso:filter-differs-from-projected-value", sql=e,
+                                                      what=f"SELECT id FROM p WHERE {cond}: unexpected ids {extra} (projected value {[val.get(k) for k in extra]}), missing ids {lost}; rows {[rows[k] for k in (extra + lost)[:2]]}"))
+                        break
+                    res["filters_compared"] = res.get("filters_compared", 0) + 1
             if whole["ok"]:
                 got = {row[0]: row[1] for row in whole["rows"]}
                 res["rows_compared"] += len(alone)
@@ -549,11 +609,12 @@ def run(tier, seed):
             rep.sample(s_, limit=7)
         for v in res["violations"]:
             rep.add_violation(Violation(v["signature"], v["what"], dict(sql=v["sql"], signature=v["signature"], predicate=True)))
-    nx = 12 if tier == "quick" else 250
-    xs, xrows, xfail = set(), 0, 0
+    nx = 20 if tier == "quick" else 250
+    xs, xrows, xfail, xfilt = set(), 0, 0, 0
     for res in parallel_map(rowiso_case, [(seed, i, nx) for i in range(16)]):
         rep.evaluations += res["evals"]
         xrows += res["rows_compared"]
+        xfilt += res.get("filters_compared", 0)
         xfail += res["both_fail"]
         xs.update(res["distinct"])
         if res["inconclusive"]:
@@ -563,7 +624,9 @@ def run(tier, seed):
         for v in res["violations"]:
             rep.add_violation(Violation(v["signature"], v["what"], dict(sql=v["sql"], signature=v["signature"], rowiso=True)))
     rep.coverage.update(rowiso_sql_expressions_judged=len(xs), rowiso_sql_rows_compared_with_the_row_alone=xrows,
-                        rowiso_sql_expressions_failing_over_the_table_and_for_some_row=xfail)
+                        rowiso_sql_expressions_failing_over_the_table_and_for_some_row=xfail,
+                        rowiso_sql_boolean_expressions_compared_as_filter=xfilt)
+    rep.floor("row-isolation SQL leg: boolean expressions also run as a filter (WHERE e / WHERE NOT e)", xfilt, nx * 2)
     rep.floor("row-isolation SQL leg: expressions judged", len(xs), nx * 8)
     run_sentinels(rep, sentinel)
     rep.evaluations += rows + iso["rows"]
